@@ -112,6 +112,27 @@ fn monitor_programs() -> Vec<(String, String, String)> {
             out.push((format!("{} -> {} as an argument", what, sfx), format!("DECLARE SUB S (X{})\nS {}\nPRINT \"ok\"\nSUB S (X{})\nY{} = X{}\nEND SUB\n", sfx, lit, sfx, sfx, sfx), String::new()));
         }
     }
+    // a minus sign directly before the most negative hexadecimal / octal literal of its type (the value 32768 / 2147483648
+    // does not fit the literal's own type), a doubled minus, and the neighbouring literals, through every storing route
+    for lit in ["-&H8000", "-&O100000", "-&H80000000", "-&O20000000000", "--&H8000", "- -&H80000000", "-&H8001", "-&H7FFF", "-&HFFFF", "-&H80000001", "-(&H8000)", "-(&H80000000)", "-&H08000", "-32768", "-2147483648"] {
+        for (sfx, _) in types {
+            out.push((format!("negated literal: {} -> {} by assignment", lit, sfx), format!("T{} = {}\nU{} = T{} + 0\nPRINT \"ok\"\n", sfx, lit, sfx, sfx), String::new()));
+            out.push((format!("negated literal: {} -> {} into an array element and a record field", lit, sfx), format!("TYPE Rec\n  FI AS INTEGER\n  FL AS LONG\n  FS AS SINGLE\n  FD AS DOUBLE\nEND TYPE\nDIM R AS Rec\nDIM AR{}(2)\nAR{}(1) = {}\nR.F{} = {}\nPRINT \"ok\"\n", sfx, sfx, lit, match sfx { "%" => "I", "&" => "L", "!" => "S", _ => "D" }, lit), String::new()));
+            if !lit.contains('(') && !lit.starts_with("--") && !lit.starts_with("- -") {
+                out.push((format!("negated literal: {} -> {} by READ", lit, sfx), format!("DATA {}\nREAD T{}\nU{} = T{} + 0\nPRINT \"ok\"\n", lit, sfx, sfx, sfx), String::new()));
+            }
+            out.push((format!("negated literal: {} -> {} through a CONST", lit, sfx), format!("CONST K = {}\nT{} = K\nU{} = T{} + 0\nPRINT \"ok\"\n", lit, sfx, sfx, sfx), String::new()));
+            out.push((format!("negated literal: {} -> {} as an argument", lit, sfx), format!("DECLARE SUB S (X{})\nS {}\nPRINT \"ok\"\nSUB S (X{})\nY{} = X{}\nEND SUB\n", sfx, lit, sfx, sfx, sfx), String::new()));
+            if sfx == "%" || sfx == "&" {
+            out.push((format!("negated literal: {} -> {} as a FOR start", lit, sfx), format!("FOR T{} = {} TO {}\nU{} = T{}\nNEXT\nPRINT \"ok\"\n", sfx, lit, lit, sfx, sfx), String::new()));
+            }
+        }
+    }
+    // results of built-in functions beyond 32767 that only a long string or many bytes of variables produce
+    for (sfx, _) in types {
+        out.push((format!("built-in result stored: INSTR at position 40002 -> {}", sfx), format!("B$ = SPACE$(20000) + SPACE$(20001) + \"y\"\nT{} = INSTR(B$, \"y\")\nU{} = T{} + 0\nAR{}(1) = INSTR(20000, B$, \"y\")\nPRINT \"ok\"\nDIM AR{}(2)\n", sfx, sfx, sfx, sfx, sfx).replace(&format!("PRINT \"ok\"\nDIM AR{}(2)\n", sfx), "PRINT \"ok\"\n").replacen("B$ =", &format!("DIM AR{}(2)\nB$ =", sfx), 1), String::new()));
+        out.push((format!("built-in result stored: VARPTR behind 60000 bytes of strings -> {}", sfx), format!("A$ = SPACE$(30000)\nB$ = SPACE$(30000)\nZ% = 1\nT{} = VARPTR(Z%)\nU{} = T{} + 0\nPRINT \"ok\"\n", sfx, sfx, sfx), String::new()));
+    }
     // INPUT, INPUT # and READ of texts that do not denote a finite number of the target type
     let texts = ["1e39", "1E39", "1e400", "-1e400", "nan", "NaN", "inf", "-inf", "infinity", "1e-400", "3.5e38", "1d39", "99999999999999999999999999999999999999999", "0x10", "1_000", "+5", "5.", ".5", "1e5", "-0"];
     for t in texts {
